@@ -210,7 +210,7 @@ def main(tier):
     rep = H.Report(PROP, tier)
     prog = H.get_program()
     rng = H.rng(PROP)
-    scales = list(range(-60, 61)) if tier == 'thorough' else list(range(-45, 46))
+    scales = list(range(-200, 201)) if tier == 'thorough' else list(range(-45, 46))
     tasks = []
     for sc in scales:
         for target in TARGETS:
